@@ -224,7 +224,7 @@ func cmdCheck(args []string) {
 		for _, kf := range known {
 			if kf.State == "open" && kf.Property == *prop && kf.Obligation == name {
 				if kf.When == "" || (vc != nil && remainderHolds(P, vc, fn, r, kf, outDir, timeout)) {
-					knownLines = append(knownLines, fmt.Sprintf("KNOWN-FINDING: property=%s %s", *prop, strings.TrimPrefix(kf.Text, "open: ")))
+					knownLines = append(knownLines, "KNOWN-FINDING: "+strings.TrimPrefix(kf.Text, "open: "))
 					total--
 					return
 				}
